@@ -1,4 +1,4 @@
-CONSTANT NP = 11
+CONSTANT NP = 12
 INIT Init
 NEXT Next
 CHECK_DEADLOCK FALSE
